@@ -11,7 +11,8 @@
         (ok = 1 if unpack_table of the data gives back texts and bstrs)
    width <fxw> <idx> -> <w>
    choose <m> <py314> <algos of compressions in order, comma list>  -> <algo> | NONE
-   select <sizes a:compressed_size or a:x, for 90,1,2,3> <len> -> included algos (uses sizes only)
+   select <sizes a:size|a:x for 1,2,3> <data> -> <algos of compressions> <their sizes> <default macro value>
+        (lzss by the model compressor; zlib/bz2/zstd replaced by strings of the given sizes)
    module <fxo> <fxw> <msvc> <py314> <macro|N> <lits k:raw:body / ...> -> M <objs s:cps|b:bytes / ...> | NONE
    pyobjs <lits> -> same format from py_object (X for none) *)
 let nl = nlist_of_string
@@ -64,18 +65,14 @@ let handle = function
       let comps = List.map (fun a -> (a, [])) (nl algos) in
       (match choose comps (z_of_string m) (bool_of_string p) with
        | Some (a, _) -> string_of_n a | None -> "NONE")
-  | ["select"; sizes; len] ->
+  | ["select"; sizes; data] ->
       let parse s = match String.split_on_char ':' s with
         | [a; "x"] -> (int_of_string a, None) | [a; k] -> (int_of_string a, Some (int_of_string k))
         | _ -> failwith "sizes" in
-      let sz = List.map parse (String.split_on_char ',' sizes) in
-      let n = int_of_string len in
-      let data = List.init n (fun _ -> N0) in
-      (* lzss is taken from the size table as well: use select_loop on 1,2,3 only after 90 by hand *)
-      let cd = size_codec sz in
-      let comps = select_loop { ext_compress = (fun a d -> cd.ext_compress a d); ext_decompress = cd.ext_decompress }
-                    [n_of_int 190; n_of_int 1; n_of_int 2; n_of_int 3] data None in
-      snl (List.map fst comps)
+      let cd = size_codec (List.map parse (String.split_on_char ',' sizes)) in
+      let comps = compressions cd (nl data) in
+      snl (List.map fst comps) ^ " " ^ snl (List.map (fun (_, c) -> n_of_int (List.length c)) comps)
+        ^ " " ^ string_of_z (default_compression comps)
   | ["module"; fxo; fxw; msvc; p; m; lits] ->
       let um = if m = "N" then None else Some (z_of_string m) in
       (match run_module (bool_of_string fxo) (bool_of_string fxw) id_codec (bool_of_string msvc)
